@@ -44,7 +44,7 @@ def run_case(case):
     def V(sig, what):
         viols.setdefault(sig, {'sig': sig, 'what': what, 'detail': {}})
     tag = 'nv=%d spline=%s edge=%s domain=%r' % (nv, case['space'], edge, case['domain'])
-    c = Constants()
+    c = ops.generic_constants(Constants())
     bs = ops.mkspace(nv, case['domain'][0], case['domain'][1], deg, False, kind == 'cu', warp)
     S = refspline.RefSpace(bs)
     cond = S.cond_inf()
